@@ -352,6 +352,10 @@ def _parse_iso8601_duration(text: str, **options: str) -> Duration | None:
         _minutes = m.group("minutes") or 0
         _seconds = m.group("seconds") or 0
 
+        if not (_hours or _minutes or _seconds):
+            # A time designator must be followed by a time component
+            raise ParserError("Invalid duration")
+
         # Checking order
         hours_start = m.start("hours") if _hours else -3
         minutes_start = m.start("minutes") if _minutes else hours_start + 1
